@@ -70,7 +70,15 @@ pub(crate) fn write_diagnostic(
         0
     };
 
-    let trim_end = (text.len() - trim_start).saturating_sub(line_width);
+    // clip on character boundaries only
+    let mut trim_start = trim_start;
+    while !text.is_char_boundary(trim_start) {
+        trim_start -= 1;
+    }
+    let mut trim_end = (text.len() - trim_start).saturating_sub(line_width);
+    while !text.is_char_boundary(text.len() - trim_end) {
+        trim_end -= 1;
+    }
     let text = &text[trim_start..text.len() - trim_end];
     let ellipsis = if trim_start == 0 { "" } else { "..." };
 
